@@ -430,3 +430,252 @@ pub fn c20_unsafe(src: &mut Src, ctx: &mut Ctx) -> CaseResult {
         _ => huffman_abuse(src, ctx),
     }
 }
+
+// ---------------------------------------------------------------------------------------------
+// e. Safe traits implemented by the *user* and handed to the library: an `IterableEntropyModel`
+//    whose symbol table is anything at all (not a tiling of [0, 2^P)), passed to every
+//    `from_iterable_entropy_model` / `to_generic_*` / `From<&M>` conversion, followed by queries on the
+//    result; and a `probability::Distribution + Inverse` whose CDF is anything at all (not monotone,
+//    outside [0, 1], NaN), quantised by a `LeakyQuantizer`. Implementing a safe trait badly is a safe
+//    program: the result may be a panic or a useless model, never undefined behaviour. Like for
+//    `from_raw_parts`, wrapping arithmetic on garbage is garbage in / garbage out; only real undefined
+//    behaviour (std's unsafe-precondition checks, unreachable hints) counts here.
+
+/// like `tol!`, but only real undefined behaviour counts
+macro_rules! ub_only {
+    ($e:expr) => {
+        match vengine::catch(|| $e) {
+            Ok(v) => Some(v),
+            Err(p) => {
+                if p.origin == vengine::PanicOrigin::Harness {
+                    panic!("harness bug: {}", p.render());
+                }
+                if p.origin != vengine::PanicOrigin::Dependency && (p.msg.contains("unsafe precondition") || p.msg.contains("unreachable")) {
+                    return Err(vengine::Fail::new(p.signature(), p.render()));
+                }
+                None
+            }
+        }
+    };
+}
+
+pub struct UserTable<const P: usize> {
+    pub rows: Vec<(i32, u16, core::num::NonZeroU16)>,
+}
+
+impl<const P: usize> EntropyModel<P> for UserTable<P> {
+    type Symbol = i32;
+    type Probability = u16;
+}
+
+impl<'m, const P: usize> IterableEntropyModel<'m, P> for UserTable<P> {
+    fn symbol_table(&'m self) -> impl Iterator<Item = (i32, u16, core::num::NonZeroU16)> {
+        self.rows.iter().cloned()
+    }
+}
+
+fn user_rows(src: &mut Src, prec: u32) -> Vec<(i32, u16, core::num::NonZeroU16)> {
+    let total: u32 = 1 << prec;
+    let n = src.below_usize(7);
+    let mut rows = Vec::new();
+    let kind = src.below(6);
+    let mut cum: u32 = if kind == 1 { 1 + src.below(20) as u32 } else { 0 };
+    for i in 0..n {
+        let p: u32 = match kind {
+            // a proper tiling (possibly cut short or running over, depending on n)
+            0 | 1 | 2 => {
+                let left = total.saturating_sub(cum);
+                if i + 1 == n && kind == 0 { left.max(1) } else { 1 + src.below((left / 2).max(1) as u64) as u32 }
+            }
+            // anything
+            _ => 1 + src.below(0xffff) as u32,
+        };
+        let p = p.clamp(1, 0xffff) as u16;
+        let c = match kind {
+            4 => src.u16(),
+            5 => 0,
+            _ => cum as u16,
+        };
+        let sym = if src.ratio(1, 8) { 0 } else { i as i32 - 2 };
+        rows.push((sym, c, core::num::NonZeroU16::new(p).unwrap()));
+        cum = cum.wrapping_add(p as u32);
+    }
+    rows
+}
+
+macro_rules! user_table_script {
+    ($name:ident, $P:literal) => {
+        fn $name(src: &mut Src, ctx: &mut Ctx) -> CaseResult {
+            let ut = UserTable::<$P> { rows: user_rows(src, $P) };
+            note!(ctx, "user-implemented IterableEntropyModel<{}>: rows {:?}", $P, ut.rows);
+            let qs: Vec<u16> = (0..6).map(|_| src.wordish(16) as u16).collect();
+            let which = src.below(6);
+            ctx.label(["user_table:lookup_from_iterable", "user_table:decoder_from_iterable", "user_table:encoder_from_iterable", "user_table:to_generic", "user_table:from_ref", "user_table:diagnostics"][which as usize]);
+            match which {
+                0 => {
+                    if let Some(m) = ub_only!(NonContiguousLookupDecoderModel::<i32, u16, Vec<(u16, i32)>, Box<[u16]>, $P>::from_iterable_entropy_model(&ut)) {
+                        for &q in &qs {
+                            let _ = ub_only!(m.quantile_function(q));
+                        }
+                        let _ = ub_only!(m.symbol_table().count());
+                        let _ = ub_only!(m.as_non_contiguous_categorical().quantile_function(qs[0]));
+                    }
+                }
+                1 => {
+                    if let Some(m) = ub_only!(NonContiguousCategoricalDecoderModel::<i32, u16, Vec<(u16, i32)>, $P>::from_iterable_entropy_model(&ut)) {
+                        for &q in &qs {
+                            let _ = ub_only!(m.quantile_function(q));
+                        }
+                        let _ = ub_only!(m.symbol_table().count());
+                        let _ = ub_only!(m.entropy_base2::<f64>());
+                        if let Some(l) = ub_only!(m.to_lookup_decoder_model()) {
+                            for &q in &qs {
+                                let _ = ub_only!(l.quantile_function(q));
+                            }
+                        }
+                    }
+                }
+                2 => {
+                    if let Some(m) = ub_only!(NonContiguousCategoricalEncoderModel::<i32, u16, $P>::from_iterable_entropy_model(&ut)) {
+                        for &q in &qs {
+                            let _ = ub_only!(m.left_cumulative_and_probability(q as i32 % 8 - 3));
+                        }
+                        let _ = ub_only!(m.entropy_base2::<f64>());
+                    }
+                }
+                3 => {
+                    if let Some(m) = ub_only!(ut.to_generic_lookup_decoder_model()) {
+                        for &q in &qs {
+                            let _ = ub_only!(m.quantile_function(q));
+                        }
+                    }
+                    if let Some(m) = ub_only!(ut.to_generic_decoder_model()) {
+                        for &q in &qs {
+                            let _ = ub_only!(m.quantile_function(q));
+                        }
+                    }
+                    if let Some(m) = ub_only!(ut.to_generic_encoder_model()) {
+                        let _ = ub_only!(m.left_cumulative_and_probability(0));
+                    }
+                }
+                4 => {
+                    if let Some(m) = ub_only!(NonContiguousLookupDecoderModel::<i32, u16, Vec<(u16, i32)>, Box<[u16]>, $P>::from(&ut)) {
+                        for &q in &qs {
+                            let _ = ub_only!(m.quantile_function(q));
+                        }
+                    }
+                    if let Some(m) = ub_only!(NonContiguousCategoricalDecoderModel::<i32, u16, Vec<(u16, i32)>, $P>::from(&ut)) {
+                        for &q in &qs {
+                            let _ = ub_only!(m.quantile_function(q));
+                        }
+                        // and a coder on top
+                        let mut ans = AnsCoder::<u16, u32>::from_binary(vec![qs[1], qs[2], qs[3]]).unwrap();
+                        for _ in 0..4 {
+                            let _ = ub_only!(ans.decode_symbol(&m));
+                        }
+                    }
+                }
+                _ => {
+                    let _ = ub_only!(ut.entropy_base2::<f64>());
+                    let _ = ub_only!(ut.floating_point_symbol_table::<f64>().count());
+                    let _ = ub_only!(ut.cross_entropy_base2::<f64>([0.5f64, 0.25, 0.25].iter().cloned()));
+                }
+            }
+            Ok(())
+        }
+    };
+}
+user_table_script!(user_table_12, 12);
+user_table_script!(user_table_16, 16);
+user_table_script!(user_table_4, 4);
+
+/// a CDF that is anything at all, with an inverse that is anything at all
+#[derive(Clone, Debug)]
+pub struct HostileDist {
+    xs: Vec<f64>,
+    vs: Vec<f64>,
+    inv: Vec<f64>,
+}
+
+impl probability::distribution::Distribution for HostileDist {
+    type Value = f64;
+    fn distribution(&self, x: f64) -> f64 {
+        let k = self.xs.partition_point(|&b| b <= x);
+        self.vs[k]
+    }
+}
+
+impl probability::distribution::Inverse for HostileDist {
+    fn inverse(&self, p: f64) -> f64 {
+        let k = if p.is_nan() { 0 } else { ((p.clamp(0.0, 1.0) * self.inv.len() as f64) as usize).min(self.inv.len() - 1) };
+        self.inv[k]
+    }
+}
+
+fn hostile_float(src: &mut Src) -> f64 {
+    match src.below(12) {
+        0 => f64::NAN,
+        1 => f64::INFINITY,
+        2 => f64::NEG_INFINITY,
+        3 => -0.25,
+        4 => 1.5,
+        5 => 0.0,
+        6 => 1.0,
+        7 => 1e300,
+        8 => -1e300,
+        _ => src.below(1001) as f64 / 1000.0,
+    }
+}
+
+macro_rules! hostile_dist_script {
+    ($name:ident, $Sym:ty, $Pr:ty, $P:literal, $bits:expr) => {
+        fn $name(src: &mut Src, ctx: &mut Ctx) -> CaseResult {
+            let lo = -(src.below(40) as i64);
+            let hi = lo + 1 + src.below(60) as i64;
+            let lo_s = lo.clamp(<$Sym>::MIN as i64, <$Sym>::MAX as i64) as $Sym;
+            let hi_s = hi.clamp(<$Sym>::MIN as i64, <$Sym>::MAX as i64) as $Sym;
+            if lo_s >= hi_s {
+                return Ok(());
+            }
+            let nb = 1 + src.below_usize(6);
+            let mut xs: Vec<f64> = (0..nb).map(|_| lo as f64 - 2.0 + src.below((hi - lo + 4) as u64 * 2) as f64 / 2.0).collect();
+            xs.sort_by(|a, b| a.partial_cmp(b).unwrap());
+            let vs: Vec<f64> = (0..nb + 1).map(|_| hostile_float(src)).collect();
+            let inv: Vec<f64> = (0..1 + src.below_usize(5)).map(|_| match src.below(6) { 0 => f64::NAN, 1 => 1e300, 2 => -1e300, _ => lo as f64 - 5.0 + src.below((hi - lo + 10) as u64) as f64 }).collect();
+            let d = HostileDist { xs, vs, inv };
+            note!(ctx, "user-implemented Distribution + Inverse {:?} quantised on {}..={} as <{},{},{}>", d, lo_s, hi_s, stringify!($Sym), stringify!($Pr), $P);
+            ctx.label("hostile_distribution");
+            let quantizer = match ub_only!(LeakyQuantizer::<f64, $Sym, $Pr, $P>::new(lo_s..=hi_s)) {
+                Some(q) => q,
+                None => return Ok(()),
+            };
+            let m = quantizer.quantize(d);
+            for _ in 0..6 {
+                let q = src.wordish($bits) as $Pr;
+                let _ = ub_only!(m.quantile_function(q));
+                let s = (lo - 2 + src.below((hi - lo + 5) as u64) as i64).clamp(<$Sym>::MIN as i64, <$Sym>::MAX as i64) as $Sym;
+                let _ = ub_only!(m.left_cumulative_and_probability(s));
+            }
+            let _ = ub_only!(m.symbol_table().take(200).count());
+            let _ = ub_only!(m.entropy_base2::<f64>());
+            Ok(())
+        }
+    };
+}
+hostile_dist_script!(hostile_dist_i32_u32_24, i32, u32, 24, 32);
+hostile_dist_script!(hostile_dist_i8_u8_8, i8, u8, 8, 8);
+hostile_dist_script!(hostile_dist_u8_u16_12, u8, u16, 12, 16);
+hostile_dist_script!(hostile_dist_i16_u16_16, i16, u16, 16, 16);
+
+pub fn c20_user_impls(src: &mut Src, ctx: &mut Ctx) -> CaseResult {
+    ctx.nontrivial();
+    match src.below(8) {
+        0 | 1 => user_table_12(src, ctx),
+        2 => user_table_16(src, ctx),
+        3 => user_table_4(src, ctx),
+        4 => hostile_dist_i32_u32_24(src, ctx),
+        5 => hostile_dist_i8_u8_8(src, ctx),
+        6 => hostile_dist_u8_u16_12(src, ctx),
+        _ => hostile_dist_i16_u16_16(src, ctx),
+    }
+}
